@@ -650,13 +650,19 @@ func (c *ctx) weirdString() string {
 	case 1:
 		return " \t\n"
 	case 2:
-		return string(c.randBytes(c.n(2000, 65536)))
+		if !c.quick() && c.rng.Intn(12) == 0 {
+			return string(c.randBytes(65536))
+		}
+		return string(c.randBytes(2000))
 	case 3:
 		return "\xff\xfe\xfd"
 	case 4:
 		return "a\x00b"
 	case 5:
-		return strings.Repeat("A", c.n(4096, 65536))
+		if !c.quick() && c.rng.Intn(12) == 0 {
+			return strings.Repeat("A", 65536)
+		}
+		return strings.Repeat("A", 4096)
 	case 6:
 		return strings.Repeat("=", 1+c.rng.Intn(40))
 	case 7:
@@ -678,7 +684,10 @@ func (c *ctx) weirdBytes() []byte {
 	case 1:
 		return []byte{}
 	case 2:
-		return c.randBytes(c.n(3000, 65536))
+		if !c.quick() && c.rng.Intn(12) == 0 {
+			return c.randBytes(65536)
+		}
+		return c.randBytes(3000)
 	case 3:
 		return c.randBytes(8)
 	case 4:
@@ -757,7 +766,7 @@ func scenC10(c *ctx) {
 			c.rec.Emit(e)
 		}
 	}
-	n := c.n(700, 40000)
+	n := c.n(700, 6000)
 	for i := 0; i < n; i++ {
 		t := time.Unix(weirdTimes[c.rng.Intn(len(weirdTimes))], int64(c.rng.Intn(1000000000)))
 		if c.rng.Intn(2) == 0 {
